@@ -39,7 +39,7 @@ def correspond(ctx):
         "argument validation on load is the identity on values that were validated when first set (exercised, not proved)",
         "SHA-256 itself is not verified (identifier bytes of model and implementation are compared)",
     ]
-    libs, cases = seriallib.make_cases(ctx, rng, "c12", ctx.scale(6, 36), ctx.scale(40, 140), "c12")
+    libs, cases = seriallib.make_cases(ctx, rng, "c12", ctx.scale(6, 36), ctx.scale(50, 140), "c12")
     recs = seriallib.run(ctx, libs, cases, shards=ctx.scale(8, 12))
     seriallib.evaluate(ctx, libs, cases, recs, "definition list / reloaded graph / recomputed identifier")
     if not ctx.quick():
